@@ -353,6 +353,47 @@ def rule_chebyshev_bounds(ck, units, which=('cheb', 'sib')):
                   '' if ok else 'the statements guarded by `if (scale)` differ between the serial (%s) and the distributed (%s) spectral radius estimate' % (ser[0].where(), dis[0].where()))
 
 
+def rule_power_norm(ck, units, floor=4):
+    """power-norm-of-stored: in the power iteration of spectral_radius (serial and distributed) the squared norm that is accumulated to
+    normalise the next iterate is that of the very value stored as the next iterate: between `norm += |<s, s>|` and `b[i] = s` (either
+    order) s is not modified."""
+    ck.rule('power-norm-of-stored', 'spectral_radius power iteration: the value whose <s, s> is accumulated into the normaliser is the value stored into the iterate '
+                                    '(s is not modified between the accumulation and the store)', floor)
+    seen = set()
+    for u in units.values():
+        for f in u.funcs:
+            if f.q != 'amgcl::backend::spectral_radius' or f.body is None:
+                continue
+            for n in f.nodes.values():
+                if not (n['k'] == 'bin' and n['op'] == '+='):
+                    continue
+                v = None
+                for c in walk(n['y']):
+                    if c['k'] == 'call' and (c.get('f') or '').endswith('inner_product') and len(c.get('a', [])) == 2:
+                        a0, a1 = unwrap(c['a'][0]), unwrap(c['a'][1])
+                        if a0['k'] == 'ref' and a1['k'] == 'ref' and a0['d'] == a1['d'] and f.decl(a0['d']).get('k') == 'local':
+                            v = a0['d']
+                if v is None:
+                    continue
+                # the innermost enclosing loop body
+                loop = next((a for a in f.ancestors(n) if a['k'] in ('for', 'while', 'rfor')), None)
+                if loop is None:
+                    continue
+                stores = [m for m in walk(loop) if m['k'] == 'bin' and m['op'] == '=' and unwrap(m['x'])['k'] == 'idx'
+                          and unwrap(m['y'])['k'] == 'ref' and unwrap(m['y'])['d'] == v]
+                for st in stores:
+                    key = 'spectral_radius|%s' % f.where(st)
+                    if key in seen:
+                        continue
+                    seen.add(key)
+                    lo, hi = sorted((n['i'], st['i']))
+                    mods = [m for m in walk(loop) if lo < m['i'] < hi and m['k'] == 'bin' and m['op'] in ('=', '+=', '-=', '*=', '/=')
+                            and unwrap(m['x'])['k'] == 'ref' and unwrap(m['x'])['d'] == v]
+                    ck.ob('power-norm-of-stored', key, f.where(n), not mods, '' if not mods else
+                          '`%s` is modified at %s between the accumulation of its squared norm (%s) and the store `%s` (%s)' % (
+                              f.decl(v)['n'], f.where(mods[0]), f.where(n), show(st), f.where(st)))
+
+
 def rule_ilu_order(ck, units):
     ck.rule('ilu-multiplier-order', 'incomplete LU factorisations (ilu0, iluk, ilut): the elimination multiplier is (entry) * (inverted pivot D[c]) - the inverted pivot is the RIGHT factor '
                                     'in every such product of the three sibling constructors (the order matters for block values: (L U)_ic = a_ic needs l_ic = a_ic u_cc^-1)', 3)
